@@ -99,9 +99,32 @@ def _decl_names(e, cache):
     return out
 
 
+def _compile_spec_axioms(reg):
+    """Contract-language axioms of spec functions -> z3 formulas (once per registry)."""
+    if getattr(reg, "_axioms_compiled", False):
+        return
+    from .engine import Engine, State, Frame
+    from .verifier import Verifier
+    from .lemmas import _Dummy
+    for fname, axioms in reg.spec_axiom_text.items():
+        out = []
+        for label, text in axioms:
+            eng = Verifier.__new__(Verifier)
+            Engine.__init__(eng, None, reg, None, _Dummy(), concrete=False)
+            st = State()
+            st.frames = [Frame({}, None, None)]
+            st.spec_mode = 1
+            f = eng.ev_spec(text, st)
+            out.append((label, z3.BoolVal(f) if isinstance(f, bool) else f))
+        reg.z3_definitions.setdefault(fname, [])
+        reg.z3_definitions[fname] = reg.z3_definitions[fname] + out
+    reg._axioms_compiled = True
+
+
 def attach_spec_axioms(reg, obligations):
     """Definitions and (inductively proved) lemmas of a spec function are added to exactly
     those VCs that mention it."""
+    _compile_spec_axioms(reg)
     cache = {}
     for ob in obligations:
         if getattr(ob, "trivial", False) or getattr(ob, "vacuous", False):
@@ -111,9 +134,11 @@ def attach_spec_axioms(reg, obligations):
             names |= _decl_names(c, cache)
         used = sorted(n for n in names if n in reg.z3_definitions)
         ob.uses_specs = used
+        ob.n_axioms = 0
         for n in used:
             for label, f in reg.z3_definitions[n] + reg.z3_lemmas.get(n, []):
                 ob.pc.append(f)
+                ob.n_axioms += 1
 
 
 def _describe_inputs(inputs):
@@ -197,6 +222,7 @@ def _gen_worker(job):
                 "vacuous": bool(getattr(ob, "vacuous", False)),
                 "uses_specs": list(getattr(ob, "uses_specs", []) or []),
                 "inputs": _describe_inputs(ob.inputs),
+                "n_axioms": getattr(ob, "n_axioms", 0),
                 "smt2": None if (getattr(ob, "trivial", False) or getattr(ob, "vacuous", False))
                 else solve.to_smt2(ob.pc, ob.goal)})
         covers = []
